@@ -408,7 +408,28 @@ def structure_ops(ctx, n):
             ctx.disagree("C19:expand_dims", desc, (pos, [nf + 1 + c for c in cov]), r[1:3] if r[0] != "ok" else (r[1].array.shape, sorted(r[1]._covariant_indices)), replay=[desc])
 
 
+def transformation_transpose(ctx, n):
+    """`.T` / `transpose()` of transformation objects are the transposed tensors (the attribute must not be shadowed)"""
+    import geometer as g
+    from geometer.base import Tensor
+    rng = ctx.rng
+    for k in range(n):
+        dim = rng.choice([2, 3])
+        M = np.array([[float(rng.randint(-3, 3)) for _ in range(dim + 1)] for _ in range(dim + 1)])
+        t = g.Transformation(M) if k % 2 == 0 else g.TransformationCollection(np.stack([M, M + 1.0]))
+        desc = f"transpose of {type(t).__name__} {M.tolist()}"
+        ctx.case(desc)
+        ctx.count("transformation-transpose")
+        for name, f in ((".T", lambda: t.T), (".transpose()", lambda: t.transpose())):
+            r = call_impl(f)
+            ok = r[0] == "ok" and isinstance(r[1], Tensor) and np.array_equal(np.asarray(r[1].array), np.swapaxes(np.asarray(t.array), -1, -2))
+            if not ok:
+                ctx.disagree(f"C19:transformation{name}", desc, "the transposed tensor", r[1:3] if r[0] != "ok" else repr(r[1])[:100], replay=[desc])
+                break
+
+
 def correspondence(ctx):
+    transformation_transpose(ctx, ctx.budget(20, 100))
     tensor_arith(ctx, ctx.budget(400, 6000))
     point_arith(ctx, ctx.budget(400, 6000))
     indexing(ctx)
